@@ -78,11 +78,10 @@ def _param_reaches_result(fi, param, other_params):
 def check_app_level_wrappers(rep, rule):
     repo = rep.repo
     app = repo.mod(APP)
-    from .c13 import find_wrap_loop, deref
+    from .c13 import wrap_plan, deref
     init = app.func('Application.__init__')
-    lf, loops, site, env = find_wrap_loop(app, init)     # in __init__ itself or in a method it calls
-    if len(loops) != 1 or not isinstance(loops[0], ast.For):
-        raise AnalysisError('Application.__init__: the WSGI wrapping loop was not found (%d candidates)' % len(loops))
+    plan = wrap_plan(app, init)     # in __init__ itself or in a method it calls; a loop, or a reduce over the sources
+    lf, site, env = plan.fn, plan.site, plan.env
 
     def resolve(e):
         for _ in range(6):
@@ -93,7 +92,7 @@ def check_app_level_wrappers(rep, rule):
                 break
             e = e2
         return e
-    src = resolve(loops[0].iter)
+    src = resolve(plan.iter)
     if isinstance(src, ast.Name):
         raise AnalysisError('Application.__init__: the list of wrapper sources (%s) is not a single assignment' % src.id)
     direct = 'self.middlewares' in norm(src)
@@ -129,4 +128,4 @@ def check_app_level_wrappers(rep, rule):
     rep.check(rule, fkey(init, 'application middlewares are wrapper sources'), ok,
               'the wrapping loop runs over a list that contains self.middlewares whether or not routes are bound' if ok else
               'the WSGI wrappers are collected from the bound routes only (%s): an Application created without routes -- routes '
-              'added later with add(), or none -- never applies the wsgi_wrapper of its own middlewares' % why, app, loops[0])
+              'added later with add(), or none -- never applies the wsgi_wrapper of its own middlewares' % why, app, plan.node)
